@@ -138,4 +138,23 @@ name, in any order; `Ser.loadAssoc` compares the first with the left and the sec
 def FieldsNotSwapped (L : Lang) (d : PyDoc) : Prop :=
   ∀ e ∈ (docOf d).associations, ∀ c, (MS.assocClasses L).find? (·.cls = e.cls) = some c → ¬ (e.lf = c.rf ∧ e.rf = c.lf)
 
+
+/-- every entry point of every attacker entry names the id of an asset entry of the document.  (Python does not
+check this: `get_asset_by_id` returns `None` and `_from_dict` stores `(None, steps)`; the typed heap cannot hold
+that, the translation stops with `PyErr.other` — `PropsGen.C07.dangling_entry_point_finding`.) -/
+def EntryPointsListed (d : PyDoc) : Prop :=
+  ∀ t ∈ d.attackers.getD [], ∀ p ∈ t.2.entry_points.getD [],
+    ∃ e ∈ d.assets.getD [], e.1.toInt?.isSome = true ∧ e.1.toInt? = p.1.toInt?
+
+/-! ### the file layer on Python-level documents (modelled, as `Ser.jsonRT` / `Ser.yamlRT`) -/
+
+/-- what a JSON file gives back: every dictionary key is a string (list elements keep their type) -/
+def jsonRTpy (d : PyDoc) : PyDoc :=
+  { d with
+    assets := d.assets.map (fun l => l.map (fun e => (Key.s e.1.text, e.2))),
+    attackers := d.attackers.map (fun l => l.map (fun e => (Key.s e.1.text,
+      { e.2 with entry_points := e.2.entry_points.map (fun m => m.map (fun p => (Key.s p.1.text, p.2))) }))) }
+
+def yamlRTpy (d : PyDoc) : PyDoc := d
+
 end MalVerif.PyM
